@@ -72,13 +72,15 @@ type dealerPart struct {
 	checkInvDetails func(c *mCall, callMsg *wamp.Call, inv *wamp.Invocation) string
 	// stats
 	finalDue map[ck]int // (caller, req) -> number of final replies the model demanded
+	stalledCalls     int
+	greyParty        map[int]bool // callees that may hold invocations the model does not know
 	maxEvents        int // most competing events seen on one call
 	maxEventsTimeout int // same, among calls that carried a timeout or saw a cancel
 }
 
 func newDealerPart(w *World) *dealerPart {
 	return &dealerPart{regs: map[string]*mReg{}, byID: map[string]*mReg{}, calls: map[ck]*mCall{}, invs: map[ck]*mCall{},
-		handledProcs: map[string]bool{}, abandoned: map[ck]bool{}, usedInv: map[int]map[wamp.ID]bool{}, metaReq: map[ck]bool{}, greyReq: map[ck]bool{}, greyInv: map[ck]bool{}, finalDue: map[ck]int{}}
+		handledProcs: map[string]bool{}, greyParty: map[int]bool{}, abandoned: map[ck]bool{}, usedInv: map[int]map[wamp.ID]bool{}, metaReq: map[ck]bool{}, greyReq: map[ck]bool{}, greyInv: map[ck]bool{}, finalDue: map[ck]int{}}
 }
 
 func (d *dealerPart) Ignore(w *World, s int, m wamp.Message) bool {
@@ -90,7 +92,22 @@ func (d *dealerPart) Ignore(w *World, s int, m wamp.Message) bool {
 			return (!d.hasMeta && d.metaReq[ck{s, m.Request}]) || d.greyReq[ck{s, m.Request}]
 		}
 	case *wamp.Interrupt:
-		return d.greyInv[ck{s, m.Request}]
+		if d.greyInv[ck{s, m.Request}] {
+			return true
+		}
+		// a callee that took part in a call outside the exact model (silent party):
+		// the INTERRUPT of that call carries an invocation id the model never saw
+		if d.greyParty[s] {
+			if _, live := d.invs[ck{s, m.Request}]; !live {
+				return true
+			}
+		}
+	case *wamp.Invocation:
+		if d.greyParty[s] {
+			if _, live := d.invs[ck{s, m.Request}]; !live && !d.usedInv[s][m.Request] {
+				return true
+			}
+		}
 	}
 	return false
 }
@@ -332,6 +349,13 @@ func (d *dealerPart) OnSent(w *World, st *StepRec, sr sentRec, exp Exp) *Violati
 			w.st.Label("cancel_repeated")
 			return nil
 		}
+		if w.stalled[c.callee] && mode != "skip" {
+			// whether the INTERRUPT still fits into the silent callee's queue decides
+			// between waiting for it and answering at once
+			exp.may(c.callee, "INTERRUPT (silent callee)", func(x wamp.Message) bool { _, ok := x.(*wamp.Interrupt); return ok })
+			d.markGrey(w, c, "cancel_with_silent_callee")
+			return nil
+		}
 		c.events++
 		c.hadTimeout = true
 		w.st.Label("cancel_" + mode)
@@ -383,6 +407,10 @@ func (d *dealerPart) OnSent(w *World, st *StepRec, sr sentRec, exp Exp) *Violati
 		}
 		if _, ppt := m.Options["ppt_scheme"]; ppt {
 			d.markGrey(w, c, "ppt_yield")
+			return nil
+		}
+		if w.stalled[c.caller] {
+			d.markGrey(w, c, "yield_to_stalled_caller")
 			return nil
 		}
 		req := c.req
@@ -624,6 +652,32 @@ func (d *dealerPart) onCallMsg(w *World, st *StepRec, s int, realm string, rc *R
 		return nil
 	}
 	caller := w.sess[s]
+	// C07: whether an INVOCATION still fits into the queue of a callee that does
+	// not read, and what a yield towards a caller that does not read does, is
+	// judged by the bounded-hold scenario, not by the exact model.
+	for _, r := range cands {
+		for _, idx := range r.members {
+			if w.stalled[idx] || w.stalled[s] {
+				d.greyReq[ck{s, req}] = true
+				if w.stalled[s] {
+					w.unsure[s] = true // the reply may take a slot in the silent caller's queue
+				}
+				for _, r2 := range cands {
+					r2.rrLast = -1
+				}
+				w.st.Label("grey:call_involving_stalled_session")
+				for _, x := range r.members {
+					d.greyParty[x] = true
+					if w.stalled[x] {
+						// it may take a slot in the silent callee's queue
+						exp.may(x, "INVOCATION (silent callee)", func(m wamp.Message) bool { _, ok := m.(*wamp.Invocation); return ok })
+					}
+				}
+				d.stalledCalls++
+				return nil
+			}
+		}
+	}
 	if isProgressChunk && !caller.has("caller", "progressive_call_invocations") {
 		// protocol violation by the caller: it alone is aborted (C04 territory)
 		w.killed[s] = ""
